@@ -12,6 +12,7 @@
 #include "c10_common.hpp"
 
 #include <iostream>
+#include <memory>
 
 #ifndef C10_PART
 #define C10_PART 1
@@ -608,10 +609,23 @@ static const char* regime2(const I& A, const I& B, const I& P) {
 }
 
 static const long PINV_BLOCK = 256;
+static const long RERANGE_LIM = 2310;
+static std::vector<std::string> small_ranges(long lim);
+// the ranges [p,q] (p, q prime) with product <= lim: first and second range of the re-ranging histories
+static std::vector<std::string> canonical_ranges(long lim) {
+  std::vector<std::string> r;
+  for (auto& s : small_ranges(lim)) { auto ab = parse_range(s); if (is_prime(ab.first) && is_prime(ab.second)) r.push_back(s); }
+  return r;
+}
 
 static std::vector<Case> multi_cases(const Group& g, const std::string& prev, bool arithmetic = true) {
   std::vector<Case> r;
   if (g.ch == "refuse") { r.push_back(mk(g, prev, "refuse")); return r; }
+  if (g.ch == "rerange") {
+    long n = (long)canonical_ranges(RERANGE_LIM).size();
+    for (long i = 0; i < n; ++i) r.push_back(mk(g, prev, "rerange", i));
+    return r;
+  }
   auto ab = parse_range(g.ch);
   std::vector<long> primes = primes_in(ab.first, ab.second);
   bool canonical = is_prime(ab.first) && is_prime(ab.second);
@@ -689,6 +703,91 @@ static void do_inverse(Ad& ad, Ctx<typename Ad::I>& cx, const std::vector<long>&
     }
   }
 }
+
+// ---------------------------------------------------------------------------------------------------------------
+// re-ranging histories: ONE object (or the static state of a shared class) is given range A, asked a partial identity
+// or a partial inverse for a sub-product Q, given range B, and the first request afterwards is for the same Q (a
+// sub-product of both ranges). Every ordered pair (A,B) of the canonical small ranges, every common Q, every way of
+// changing the range, both kinds of request before and after. The answers after the change are checked prime by prime
+// against range B; nothing of range A may survive.
+// ---------------------------------------------------------------------------------------------------------------
+template <class I>
+static std::vector<long> common_primes(const std::vector<long>& pa, const std::vector<long>& pb) {
+  std::vector<long> r;
+  for (long q : pa) for (long w : pb) if (q == w) r.push_back(q);
+  return r;
+}
+// Env: make(a,b) -> handle of a fresh object in range [a,b]; change(h, m, a, b); pid(h,Q); pinv(h,x,Q); nmethods; method_name(m)
+template <class Env, class I>
+static void rerange_histories(Env& env, Ctx<I>& cx, long ai) {
+  auto rs = canonical_ranges(RERANGE_LIM);
+  if (ai < 0 || ai >= (long)rs.size()) return;
+  auto A = parse_range(rs[ai]);
+  std::vector<long> pa = primes_in(A.first, A.second);
+  static const char* const OBS_ID[3] = {"rerange.set.get_partial_multiplicative_identity", "rerange.assign.get_partial_multiplicative_identity",
+                                        "rerange.swap.get_partial_multiplicative_identity"};
+  static const char* const OBS_T[3] = {"rerange.set.get_partial_inverse.T", "rerange.assign.get_partial_inverse.T", "rerange.swap.get_partial_inverse.T"};
+  static const char* const OBS_V[3] = {"rerange.set.get_partial_inverse.value", "rerange.assign.get_partial_inverse.value",
+                                       "rerange.swap.get_partial_inverse.value"};
+  for (auto& bs : rs) {
+    if (bs == rs[ai]) continue;
+    auto B = parse_range(bs);
+    std::vector<long> pb = primes_in(B.first, B.second);
+    I PB = product<I>(pb);
+    cx.set_modulus(PB, rs[ai] + ">" + bs);
+    for (auto& Q : subproducts<I>(common_primes<I>(pa, pb))) {
+      const char* rg = (Q == PB) ? "Q=P" : (Q == 1 ? "Q=1" : "1<Q<P");
+      I one = 1;
+      for (int m = 0; m < Env::NMETHODS; ++m) for (int pre = 0; pre < 2; ++pre) for (int post = 0; post < 2; ++post) {
+        cx.ops(post ? &one : nullptr, nullptr, nullptr, &Q);
+        bool ok = guarded([&] {
+          auto h = env.make(A.first, A.second);
+          if (pre == 0) (void)env.pid(h, Q); else (void)env.pinv(h, one, Q);
+          env.change(h, m, B.first, B.second);
+          if (post == 0) {
+            I got = env.pid(h, Q);
+            check_partial_identity(cx, OBS_ID[m], rg, pb, Q, got);
+          } else {
+            auto pr = env.pinv(h, one, Q);
+            check_partial_inverse(cx, OBS_T[m], OBS_V[m], rg, pb, one, Q, pr.first, pr.second);
+          }
+        });
+        tot().calls += 4; ++tot().tuples; ++tot().nontrivial;
+        if (!ok) { ++tot().evals; cx.fail("rerange.SIGFPE", rg, "SIGFPE (integer division by zero)", "an answer"); }
+      }
+    }
+  }
+  env.done();
+}
+template <class Ops, class E, class I>
+struct OpsRerange {
+  static constexpr int NMETHODS = 3;
+  std::unique_ptr<Ops> make(long a, long b) { return std::unique_ptr<Ops>(new Ops((int)a, (int)b)); }
+  void change(std::unique_ptr<Ops>& h, int m, long a, long b) {
+    if (m == 0) h->set_characteristic((int)a, (int)b);
+    else if (m == 1) { Ops other((int)a, (int)b); *h = other; }
+    else { Ops other((int)a, (int)b); swap(*h, other); }
+  }
+  I pid(std::unique_ptr<Ops>& h, const I& Q) { return To<I>::of(h->get_partial_multiplicative_identity(from_I<E>(Q))); }
+  std::pair<I, I> pinv(std::unique_ptr<Ops>& h, const I& x, const I& Q) {
+    auto pr = h->get_partial_inverse(from_I<E>(x), from_I<E>(Q));
+    return {To<I>::of(pr.first), To<I>::of(pr.second)};
+  }
+  void done() {}
+};
+template <class F, class E, class I>
+struct SharedRerange {
+  static constexpr int NMETHODS = 1;  // the shared range only changes through initialize
+  int make(long a, long b) { F::initialize((unsigned)a, (unsigned)b); return 0; }
+  void change(int&, int, long a, long b) { F::initialize((unsigned)a, (unsigned)b); }
+  I pid(int&, const I& Q) { return To<I>::of(F::get_partial_multiplicative_identity(from_I<E>(Q)).get_value()); }
+  std::pair<I, I> pinv(int&, const I& x, const I& Q) {
+    F fx(from_I<E>(x));
+    auto pr = fx.get_partial_inverse(from_I<E>(Q));
+    return {To<I>::of(pr.first.get_value()), To<I>::of(pr.second)};
+  }
+  void done() { F::initialize(3, 3); }
+};
 
 template <class Ad>
 static void multi_sections(Ad& ad, Ctx<typename Ad::I>& cx, const Case& c, const std::vector<long>& primes) {
@@ -893,6 +992,8 @@ static std::vector<Group> part_groups() {
   for (auto& r : rs) for (const char* f : {"mf_ops", "mf_sh", "coh_mf"}) g.push_back({f, r});
   g.push_back({"mf_ops", "refuse"});
   g.push_back({"mf_sh", "refuse"});
+  g.push_back({"mf_ops", "rerange"});
+  g.push_back({"mf_sh", "rerange"});
   return g;
 }
 static std::vector<Case> group_cases(const Group& g, const std::string& prev) { return multi_cases(g, prev); }
@@ -960,6 +1061,19 @@ static void exec_case(const Case& c) {
     }
     return;
   }
+  if (c.sec == "rerange") {
+    if (c.fam == "mf_ops") {
+      cx.fam = "Multi_field_operators";
+      OpsRerange<pf::Multi_field_operators, mpz_class, mpz_class> env;
+      rerange_histories(env, cx, c.a);
+    } else {
+      cx.fam = "Shared_multi_field_element";
+      SharedRerange<pf::Shared_multi_field_element, mpz_class, mpz_class> env;
+      rerange_histories(env, cx, c.a);
+      cur_sh = "3-3";
+    }
+    return;
+  }
   auto ab = parse_range(c.ch);
   std::vector<long> primes = primes_in(ab.first, ab.second);
   cx.set_modulus(product<mpz_class>(primes), c.ch);
@@ -1015,6 +1129,7 @@ static std::vector<Group> part_groups() {
   for (const char* x : {"2-23", "3-29", "3-30", "65519-65521", "32749-32771"})
     for (const char* f : {"mfs_ops", "mfs_sh_u32", "mfs_sh_u64"}) g.push_back({f, x});
   for (const char* f : {"mfs_ops", "mfs_sh_u32", "mfs_sh_u64"}) g.push_back({f, "refuse"});
+  for (const char* f : {"mfs_ops", "mfs_sh_u32", "mfs_sh_u64"}) g.push_back({f, "rerange"});
   return g;
 }
 static std::vector<Case> group_cases(const Group& g, const std::string& prev) { return multi_cases(g, prev); }
@@ -1045,6 +1160,12 @@ static void run_small_shared(const Case& c, const char* label, std::string& cur)
     cur = "3-3";
     return;
   }
+  if (c.sec == "rerange") {
+    SharedRerange<F, U, i128> env;
+    rerange_histories(env, cx, c.a);
+    cur = "3-3";
+    return;
+  }
   auto ab = parse_range(c.ch);
   std::vector<long> primes = primes_in(ab.first, ab.second);
   cx.set_modulus(product<i128>(primes), c.ch);
@@ -1069,6 +1190,11 @@ static void exec_case(const Case& c) {
   if (c.sec == "refuse") {
     refuse_ranges(cx, "set_characteristic", (i128)UINT_MAX, [&](long a, long b) { O o; o.set_characteristic((int)a, (int)b); return (i128)o.get_characteristic(); });
     refuse_ranges(cx, "ctor(min,max)", (i128)UINT_MAX, [&](long a, long b) { O o((int)a, (int)b); return (i128)o.get_characteristic(); });
+    return;
+  }
+  if (c.sec == "rerange") {
+    OpsRerange<O, u32, i128> env;
+    rerange_histories(env, cx, c.a);
     return;
   }
   auto ab = parse_range(c.ch);
@@ -1222,7 +1348,7 @@ int main(int argc, char** argv) {
         if (ncases % 97 == 1) vf::stats().sample(e);
       }
       if (!any) continue;
-      last[g.fam] = g.ch == "refuse" ? (C10_PART <= 2 ? "3" : "3-3") : g.ch;
+      last[g.fam] = (g.ch == "refuse" || g.ch == "rerange") ? (C10_PART <= 2 ? "3" : "3-3") : g.ch;
       vf::stats().add("groups." + g.fam, 1);
     }
     vf::stats().add("cases", ncases);
